@@ -356,7 +356,9 @@ func checkC06(c *Ctx, r *Report) {
 				gs := append(append([]Guard{}, leaf.Gs...), guardsOf(s.Call.Block())...)
 				var stored []string
 				for _, t := range c.concreteTypesOf(s.Call.Common().Args[2]) {
-					stored = append(stored, c.txRoleOf(t))
+					if ro := c.txRoleOf(t); ro != "nil" {
+						stored = append(stored, ro) // a nil member of the phi is not a kind of exchange
+					}
 				}
 				sort.Strings(stored)
 				key := fmt.Sprintf("%s:Store[%s][key<-%s]", rel, strings.Join(stored, "|"), strings.Join(cls, "|"))
